@@ -308,4 +308,6 @@ def concretize(model, v, max_len=12):
         return tuple(concretize(model, v.get(i)) for i in range(n))
     if isinstance(v, SObj):
         return {k: concretize(model, x) for k, x in v.fields.items()}
+    if hasattr(v, "py_concretize"):
+        return v.py_concretize(model)  # a modelled value (ModelObj) that knows how to print itself from a model
     return v
